@@ -110,41 +110,48 @@ func genCasterScenario(rng *rand.Rand, profile, mode string) any {
 	return sc
 }
 
+// outcomeOf runs one (mis)use call: "ok", "panic", or "hang" when it does not return within half a second
 func outcomeOf(f func()) string {
-	if p := safeCall(f); p != "" {
-		return "panic"
+	res := make(chan string, 1)
+	go func() {
+		if p := safeCall(f); p != "" {
+			res <- "panic"
+		} else {
+			res <- "ok"
+		}
+	}()
+	select {
+	case r := <-res:
+		return r
+	case <-time.After(500 * time.Millisecond):
+		return "hang"
 	}
-	return "ok"
 }
 
 // misuseCases exercises out-of-range and unbalanced Adds on fresh casters (sequentially).
 func misuseCases(r *rec.Rec) {
 	mk := func() *bigbuff.ChanCaster[chan int, int] { return bigbuff.NewChanCaster(make(chan int)) }
-	{
+	run := func(name string, fs ...func(c *bigbuff.ChanCaster[chan int, int])) {
 		c := mk()
-		r.Add(rec.Ev{"ev": "misuse", "case": "neg-on-empty", "outcomes": []string{
-			outcomeOf(func() { c.Add(-1) }), outcomeOf(func() { c.Add(0) }), outcomeOf(func() { c.Send(1) }), outcomeOf(func() { c.Add(-1) })}})
+		outs := make([]string, len(fs))
+		for i, f := range fs {
+			f := f
+			outs[i] = outcomeOf(func() { f(c) })
+		}
+		r.Add(rec.Ev{"ev": "misuse", "case": name, "outcomes": outs})
 	}
-	{
-		c := mk()
-		r.Add(rec.Ev{"ev": "misuse", "case": "overflow-sum", "outcomes": []string{
-			outcomeOf(func() { c.Add(math.MaxInt32) }), outcomeOf(func() { c.Add(1) }), outcomeOf(func() { c.Add(0) }), outcomeOf(func() { c.Send(1) })}})
-	}
-	{
-		c := mk()
-		r.Add(rec.Ev{"ev": "misuse", "case": "pos-out-of-bounds", "outcomes": []string{
-			outcomeOf(func() { c.Add(math.MaxInt32 + 1) }), outcomeOf(func() { c.Add(0) }), outcomeOf(func() { c.Send(1) })}})
-	}
-	{
-		c := mk()
-		r.Add(rec.Ev{"ev": "misuse", "case": "neg-out-of-bounds", "outcomes": []string{
-			outcomeOf(func() { c.Add(-math.MaxInt32 - 1) }), outcomeOf(func() { c.Add(0) }), outcomeOf(func() { c.Send(1) })}})
-	}
-	{
-		c := mk()
-		r.Add(rec.Ev{"ev": "misuse", "case": "max-ok", "outcomes": []string{
-			outcomeOf(func() { c.Add(math.MaxInt32) }), outcomeOf(func() { c.Add(-math.MaxInt32) }), outcomeOf(func() { c.Add(0) })}})
-	}
+	type C = *bigbuff.ChanCaster[chan int, int]
+	add := func(d int) func(C) { return func(c C) { c.Add(d) } }
+	send := func(c C) { c.Send(1) }
+	run("neg-on-empty", add(-1), add(0), send, add(-1), send, add(1))
+	run("overflow-sum", add(math.MaxInt32), add(1), add(0), send, send)
+	run("pos-out-of-bounds", add(math.MaxInt32+1), add(0), send)
+	run("neg-out-of-bounds", add(-math.MaxInt32-1), add(0), send)
+	run("max-ok", add(math.MaxInt32), add(-math.MaxInt32), add(0))
+	run("min-int", add(math.MinInt), add(0), send)
+	run("max-int", add(math.MaxInt), add(0), send)
+	run("min-int-plus-one", add(math.MinInt+1), add(0))
+	run("neg-max-on-empty", add(-math.MaxInt32), add(0), send)
 }
 
 func runCasterExec(execID int, sci any, e *Env) []rec.Ev {
